@@ -1529,6 +1529,18 @@ class Vmap(Generic[X, R], GFI[X, R]):
         return selected, unselected
 
 
+def _where_leading(check, v1, v2):
+    """`jnp.where` with `check` aligned to the leading axes of the values.
+
+    A vectorized `Cond` trace holds one `check` per lane/step while its choices
+    may carry further (event or inner-batch) axes after those.
+    """
+    extra = jnp.ndim(v1) - jnp.ndim(check)
+    if extra > 0:
+        check = jnp.reshape(check, jnp.shape(check) + (1,) * extra)
+    return jnp.where(check, v1, v2)
+
+
 #################
 # Distributions #
 #################
@@ -1666,7 +1678,7 @@ class Distribution(Generic[X], GFI[X, X]):
         """
         if check is not None:
             # Conditional merge using jnp.where
-            merged = jtu.tree_map(lambda v1, v2: jnp.where(check, v1, v2), x, x_)
+            merged = jtu.tree_map(lambda v1, v2: _where_leading(check, v1, v2), x, x_)
             # No values are truly "discarded" in conditional selection
             return merged, None
         else:
@@ -2246,7 +2258,9 @@ class Fn(
                     if check is not None:
                         # Use conditional selection at the leaf
                         result[key] = jtu.tree_map(
-                            lambda v1, v2: jnp.where(check, v1, v2), val_x, val_x_
+                            lambda v1, v2: _where_leading(check, v1, v2),
+                            val_x,
+                            val_x_,
                         )
                         # In conditional merge, nothing is truly discarded
                     else:
